@@ -180,6 +180,8 @@ def check_one(case) -> core.Out:
             if exc is not None:
                 out.classes = ["skipped:file-run-raises(C08)"]
                 return out
+            if end == "timeout":
+                chunks = chunks[:48]  # everything must fit in the kernel queue before reading starts
             a, b = socket.socketpair()
             try:
                 def sender():
@@ -195,7 +197,9 @@ def check_one(case) -> core.Out:
                 th = threading.Thread(target=sender, daemon=True)
                 if end == "timeout":
                     th.start()
-                    th.join()  # everything is queued in the kernel before reading starts
+                    th.join(20)  # everything is queued in the kernel before reading starts
+                    if th.is_alive():
+                        raise core.HarnessError("sender thread could not queue the data")
                     b.settimeout(0.05)
                 else:
                     b.settimeout(None)
